@@ -53,7 +53,13 @@ func (s *MapLiteralVisitor) EnterOC_Expression(ctx *parser.OC_ExpressionContext)
 }
 
 func (s *MapLiteralVisitor) ExitOC_Expression(ctx *parser.OC_ExpressionContext) {
-	s.Map[s.nextPropertyKey] = s.ctx.Exit().(*ExpressionVisitor).Expression
+	expression := s.ctx.Exit().(*ExpressionVisitor).Expression
+
+	if _, duplicate := s.Map[s.nextPropertyKey]; duplicate {
+		s.ctx.AddErrors(fmt.Errorf("duplicate map key: %s", s.nextPropertyKey))
+	}
+
+	s.Map[s.nextPropertyKey] = expression
 }
 
 type ListLiteralVisitor struct {
